@@ -225,6 +225,8 @@ func (v *Verifier) registerIfaceColumns() {
 			}
 		}
 	}
+	v.colSorts["arg_httpError_0"], v.colSorts["arg_httpError_1"] = SStr, SInt
+	v.colTypes["arg_httpError_0"], v.colTypes["arg_httpError_1"] = types.Typ[types.String], types.Typ[types.Int]
 	v.colSorts["arg_Write_0"], v.colSorts["ret_Write_0"], v.colSorts["ret_Write_1"] = SStr, SInt, SRef
 	v.colTypes["arg_Write_0"] = types.NewSlice(types.Typ[types.Byte])
 	v.colTypes["ret_Write_0"] = types.Typ[types.Int]
